@@ -132,6 +132,7 @@ type Thread struct {
 	Died    string // escaped panic message
 	NID     int    // logical id in native schedule replay (-1: goroutine started outside instrumented files)
 	opRecorded bool
+	yielded    bool
 	clock   []int  // vector clock
 	HeldMu  map[Ptr]int
 }
@@ -191,6 +192,7 @@ type Machine struct {
 	access       map[raceKey]*accessRec
 	raceDetect    bool
 	noAdvanceNext bool
+	timers        []*ChanObj
 	lastMarshal   Value
 	randN         int
 	nextNID       int
